@@ -15,7 +15,7 @@ use rustrtc::transports::dtls::{Certificate, fingerprint, generate_certificate};
 use std::collections::VecDeque;
 
 #[derive(Clone, Debug, PartialEq)]
-pub enum Act { Drop, Dup, Swap, FlipBody(u16), CertOther, CertEmpty, CertGarbage, Resign, CertOtherResign, FlipSig, FlipKey, FlipRandom, StripExt(u16), FlipCipher, Fragment(u16), FragDupMid(u16), FragReorder(u16), SeqMinus1, Impostor, ImpostorChain, ExtraCert, RefragTailLost(u16), RefragEvery3(u16), PreInject(u8) }
+pub enum Act { Drop, Dup, Swap, FlipBody(u16), CertOther, CertEmpty, CertGarbage, Resign, CertOtherResign, FlipSig, FlipKey, FlipRandom, StripExt(u16), FlipCipher, Fragment(u16), FragDupMid(u16), FragReorder(u16), SeqMinus1, Impostor, ImpostorChain, ExtraCert, RefragTailLost(u16), RefragEvery3(u16), PreInject(u8), ForgeFinishedBad, InsertCert }
 
 #[derive(Clone, Debug, PartialEq)]
 pub struct Rule { pub from_client: bool, pub typ: u8, pub act: Act }
@@ -33,7 +33,7 @@ impl Script {
             Act::Fragment(n) => format!("frag{n}"), Act::FragDupMid(n) => format!("fragdup{n}"), Act::FragReorder(n) => format!("fragreorder{n}"),
             Act::SeqMinus1 => "seqminus1".into(), Act::Impostor => "impostor".into(), Act::ImpostorChain => "impostorchain".into(),
             Act::ExtraCert => "extracert".into(), Act::RefragTailLost(n) => format!("refragtaillost{n}"), Act::RefragEvery3(n) => format!("refragevery{n}"),
-            Act::PreInject(ct) => format!("preinject{ct}") })).collect();
+            Act::PreInject(ct) => format!("preinject{ct}"), Act::ForgeFinishedBad => "forgefinishedbad".into(), Act::InsertCert => "insertcert".into() })).collect();
         format!("ce={} se={} {}", self.ce, self.se, if rs.is_empty() { "-".into() } else { rs.join(";") })
     }
     pub fn parse(s: &str) -> Script {
@@ -47,7 +47,7 @@ impl Script {
             let num = |pre: &str| a[pre.len()..].parse::<u16>().unwrap();
             let act = match a { "drop" => Act::Drop, "dup" => Act::Dup, "swap" => Act::Swap, "other" => Act::CertOther, "empty" => Act::CertEmpty,
                 "garbage" => Act::CertGarbage, "resign" => Act::Resign, "otherresign" => Act::CertOtherResign, "flipsig" => Act::FlipSig,
-                "flipkey" => Act::FlipKey, "fliprandom" => Act::FlipRandom, "flipcipher" => Act::FlipCipher, "seqminus1" => Act::SeqMinus1, "impostor" => Act::Impostor, "impostorchain" => Act::ImpostorChain, "extracert" => Act::ExtraCert,
+                "flipkey" => Act::FlipKey, "fliprandom" => Act::FlipRandom, "flipcipher" => Act::FlipCipher, "seqminus1" => Act::SeqMinus1, "forgefinishedbad" => Act::ForgeFinishedBad, "insertcert" => Act::InsertCert, "impostor" => Act::Impostor, "impostorchain" => Act::ImpostorChain, "extracert" => Act::ExtraCert,
                 x if x.starts_with("flipbody") => Act::FlipBody(num("flipbody")), x if x.starts_with("strip") => Act::StripExt(num("strip")),
                 x if x.starts_with("preinject") => Act::PreInject(num("preinject") as u8),
                 x if x.starts_with("refragtaillost") => Act::RefragTailLost(num("refragtaillost")), x if x.starts_with("refragevery") => Act::RefragEvery3(num("refragevery")),
@@ -78,6 +78,13 @@ fn rebuild(dg: &[u8], f: impl FnOnce(&mut Vec<u8>)) -> Vec<u8> {
     record_bytes(22, (r.vmaj, r.vmin), r.epoch, r.seq, &hs_bytes(m.typ, body.len() as u32, m.seq, 0, &body))
 }
 
+fn cert_body(certs: &[Vec<u8>]) -> Vec<u8> {
+    let mut b = vec![]; let tot: usize = certs.iter().map(|c| c.len() + 3).sum();
+    b.extend_from_slice(&(tot as u32).to_be_bytes()[1..]);
+    for c in certs { b.extend_from_slice(&(c.len() as u32).to_be_bytes()[1..]); b.extend_from_slice(c); }
+    b
+}
+
 pub struct Attacker { pub cert: Certificate, pub key: p256::ecdsa::SigningKey }
 impl Attacker {
     pub fn new() -> Attacker {
@@ -91,8 +98,6 @@ impl Attacker {
 /// `occ`: how many datagrams of this kind the rule has already seen (persistent re-fragmentation rules
 /// apply to every retransmission, with a different split each time)
 fn apply(act: &Act, dg: &[u8], atk: &Attacker, randoms: &(Vec<u8>, Vec<u8>), occ: usize) -> Vec<Vec<u8>> {
-    let cert_body = |certs: &[Vec<u8>]| { let mut b = vec![]; let tot: usize = certs.iter().map(|c| c.len() + 3).sum();
-        b.extend_from_slice(&(tot as u32).to_be_bytes()[1..]); for c in certs { b.extend_from_slice(&(c.len() as u32).to_be_bytes()[1..]); b.extend_from_slice(c); } b };
     let resign = |body: &mut Vec<u8>| {
         // ServerKeyExchange: curve_type(1) named_curve(2) len(1) pubkey, hash(1) sig(1) siglen(2) sig
         let pl = body[3] as usize;
@@ -127,7 +132,14 @@ fn apply(act: &Act, dg: &[u8], atk: &Attacker, randoms: &(Vec<u8>, Vec<u8>), occ
                 b.truncate(i); b.extend_from_slice(&(out.len() as u16).to_be_bytes()); b.extend_from_slice(&out);
             } })],
         Act::FlipCipher => { let mut d = dg.to_vec(); let n = d.len(); d[n - 20] ^= 1; vec![d] }
-        Act::Impostor | Act::ImpostorChain | Act::ExtraCert => vec![dg.to_vec()],
+        Act::Impostor | Act::ImpostorChain | Act::ExtraCert | Act::ForgeFinishedBad => vec![dg.to_vec()],
+        Act::InsertCert => {
+            // a second Certificate message (the attacker's certificate), in sequence right after the genuine one;
+            // the proxy renumbers the rest of the flight (see `seq_shift`)
+            let r = &parse_records(dg)[0]; let m = &parse_hs(&r.body)[0];
+            let body = cert_body(&atk.cert.certificate);
+            vec![dg.to_vec(), record_bytes(22, (r.vmaj, r.vmin), 0, r.seq + 50, &hs_bytes(11, body.len() as u32, m.seq + 1, 0, &body))]
+        }
         Act::SeqMinus1 => {
             // renumber the message (an on-path party closing the gap after dropping its predecessor)
             let r = &parse_records(dg)[0]; let m = &parse_hs(&r.body)[0];
@@ -208,6 +220,7 @@ pub async fn run_script_ticks(sc: &Script, max_ticks: u32) -> Option<Outcome> {
     for d in c.start().await { q_cs.push_back(d); }
     let mut used = vec![false; sc.rules.len()];
     let mut occ = vec![0usize; sc.rules.len()];
+    let (mut forged, mut seq_shift, mut inserted_cert) = (false, 0u16, false);
     let mut held: (Option<Vec<u8>>, Option<Vec<u8>>) = (None, None);
     let mut randoms = (vec![], vec![]);
     let mut guard = 0;
@@ -254,6 +267,22 @@ pub async fn run_script_ticks(sc: &Script, max_ticks: u32) -> Option<Outcome> {
                 occ[i] += 1;
             }
         }
+        // a Finished sealed under the genuine server write key (the harness has the client's key log) but with a
+        // wrong verify_data: it authenticates as a record, and reaches the client's verify_data comparison
+        if !from_client && k == 20 && sc.rules.iter().any(|r| r.act == Act::ForgeFinishedBad) && !forged {
+            if let Some(keys) = c.keys.last() {
+                forged = true;
+                let (wk, wiv) = write_dir(keys, false);
+                let fin = hs_bytes(20, 12, 4, 0, &[0x5A; 12]);
+                outs = vec![record_bytes(22, (254, 253), 1, 0, &seal_body(&wk, &wiv, 1, 0, 22, (254, 253), &fin))];
+            }
+        }
+        // after an inserted message the proxy renumbers the remaining clear-text messages of the server's flight
+        if !from_client && seq_shift > 0 && (k == 12 || k == 14) {
+            outs = outs.iter().map(|d| { let r = &parse_records(d)[0]; let m = &parse_hs(&r.body)[0];
+                record_bytes(22, (r.vmaj, r.vmin), r.epoch, r.seq, &hs_bytes(m.typ, m.total, m.seq + seq_shift, m.off, &m.body)) }).collect();
+        }
+        if !from_client && k == 11 && sc.rules.iter().any(|r| r.act == Act::InsertCert) { seq_shift = 1; inserted_cert = true; }
         let slot = if from_client { &mut held.0 } else { &mut held.1 };
         if swap { *slot = Some(outs.remove(0)); continue; }
         if let Some(h) = slot.take() { outs.push(h); }
@@ -301,6 +330,14 @@ pub async fn run_script_ticks(sc: &Script, max_ticks: u32) -> Option<Outcome> {
             fails.push(("noconn:app-data-accepted-while-not-connected".into(), text.clone()));
         }
     }
+    for v in c.clear_violations.iter().chain(s.clear_violations.iter()) { fails.push((v.clone(), text.clone())); }
+    // the watch channel (what SCTP / SRTP wait on) must show what get_state() shows after every step
+    for x in [&c, &s] { for o in &x.outs { if let Some(st) = o.split(',').next() { if st.contains('!') {
+        fails.push((format!("state:watch-channel-differs-from-state:{st}"), text.clone())); } } } }
+    if forged && c.ep.letter() != 'F' { fails.push((format!("role:client:wrong-verify-data-not-rejected:ended-{}", c.ep.letter()), text.clone())); }
+    if inserted_cert && c.expected.is_some() && c.ep.letter() != 'F' {
+        fails.push((format!("role:client:non-matching-certificate-in-sequence-not-rejected:ended-{}", c.ep.letter()), text.clone()));
+    }
     if let (Some(kc), Some(ks)) = (c.ep.keys(), s.ep.keys()) {
         if kc != ks { fails.push(("conv:both-connected-different-keys".into(), text.clone())); }
         if c.ep.srtp_profile() != s.ep.srtp_profile() { fails.push(("conv:both-connected-different-profile".into(), text.clone())); }
@@ -333,6 +370,11 @@ pub fn scripts(thorough: bool, rng: &mut Rng) -> Vec<Script> {
         vec![r(true, 20, Act::Dup)], vec![r(false, 20, Act::Dup)],
         vec![r(false, 11, Act::Fragment(100))], vec![r(false, 12, Act::Fragment(30))],
         vec![r(false, 0, Act::Impostor)], vec![r(false, 0, Act::ImpostorChain)], vec![r(false, 0, Act::ExtraCert)],
+        // the client's own verify_data comparison: a Finished that authenticates as a record but carries a wrong value
+        vec![r(false, 20, Act::ForgeFinishedBad)],
+        // a second, in-sequence Certificate message (attacker's) after the genuine one, alone and with the key
+        // exchange re-signed by the attacker
+        vec![r(false, 11, Act::InsertCert)], vec![r(false, 11, Act::InsertCert), r(false, 12, Act::Resign)],
         // clear-text records injected at every stage of the handshake (before keys, between keys and Connected)
         vec![r(false, 2, Act::PreInject(23))], vec![r(false, 14, Act::PreInject(23))], vec![r(false, 200, Act::PreInject(23))], vec![r(false, 20, Act::PreInject(23))],
         vec![r(true, 16, Act::PreInject(23))], vec![r(true, 200, Act::PreInject(23))], vec![r(true, 20, Act::PreInject(23))],
